@@ -14,6 +14,13 @@ EOF = 'EOF'
 RESET = 'RESET'
 
 
+def _io(k, kind, name, data):
+    """transport-level history: (seq, task, kind, endpoint, bytes) for oracles"""
+    seq = k.log(kind, name, data)
+    k.io.append((seq, k.current.name if k.current is not None else 'sched', kind, name, data))
+    return seq
+
+
 class Pipe(object):
     """One direction of an ordered byte stream.
 
@@ -143,7 +150,7 @@ class SimSocket(object):
         pass
 
     def fileno(self):
-        return 1000 + id(self) % 1000
+        return 1000
 
     def getpeername(self):
         return ('sim-peer', 1)
@@ -159,12 +166,14 @@ class SimSocket(object):
         return self.ch.tx(self.side)
 
     def readable(self):
-        return self.closed or self._rxp().readable()
+        return self.closed or self.ch is None or self._rxp().readable()
 
     def recv(self, n, flags=0):
         self.k.yield_point('recv')
         if self.closed:
             raise OSError(9, 'Bad file descriptor')
+        if self.ch is None:
+            raise OSError(107, 'Transport endpoint is not connected')
         p = self._rxp()
         if not p.readable():
             if self._timeout == 0.0:
@@ -177,7 +186,7 @@ class SimSocket(object):
                 raise _real_socket.timeout('timed out')
         if p.rx:
             data = p.take(n)
-            self.k.log('recv', self.name, n, data)
+            _io(self.k, 'recv', self.name, data)
             return data
         if p.reset:
             self.k.log('recv-reset', self.name)
@@ -189,6 +198,8 @@ class SimSocket(object):
         self.k.yield_point('send')
         if self.closed:
             raise OSError(9, 'Bad file descriptor')
+        if self.ch is None:
+            raise OSError(107, 'Transport endpoint is not connected')
         if self.send_error is not None:
             err, self.send_error = self.send_error, None
             self.k.log('send-error', self.name)
@@ -196,7 +207,7 @@ class SimSocket(object):
         if self._rxp().reset:
             raise BrokenPipeError(32, 'Broken pipe')
         data = bytes(data)
-        self.sent_frames.append((self.k.seq, data))
+        self.sent_frames.append((_io(self.k, 'send', self.name, data), data))
         self._txp().write(data)
         return len(data)
 
@@ -209,11 +220,22 @@ class SimSocket(object):
         if not self.closed:
             self.closed = True
             self.k.log('close', self.name)
-            self._rxp().closed_by_reader = True
-            self._txp().push(0.0, EOF)
+            if self.ch is not None:
+                self._rxp().closed_by_reader = True
+                self._txp().push(0.0, EOF)
 
     def connect(self, addr):
-        pass
+        # unconnected stream socket (TLS client path): establish the channel now
+        if self.ch is None:
+            self.k.yield_point('connect')
+            fn = self.k.registry.get('tcp_connect')
+            if fn is None:
+                raise ConnectionRefusedError(111, 'Connection refused')
+            other = fn(tuple(addr))
+            if isinstance(other, BaseException):
+                raise other
+            self.ch, self.side = other.ch, other.side
+            self.k.log('connect', addr[1])
 
 
 class DatagramNet(object):
@@ -283,6 +305,7 @@ class SimDatagramSocket(object):
 
     def sendto(self, data, addr):
         self.k.yield_point('sendto')
+        _io(self.k, 'send', self.name, bytes(data))
         self.net.sendto(self.addr, tuple(addr), data)
         return len(data)
 
@@ -296,7 +319,7 @@ class SimDatagramSocket(object):
                 self.k.log('recvfrom-timeout', self.name)
                 raise _real_socket.timeout('timed out')
         data, src = self.rxq.popleft()
-        self.k.log('recvfrom', self.name, data)
+        _io(self.k, 'recv', self.name, data)
         return data[:size], src
 
     def close(self):
@@ -338,12 +361,16 @@ class SimSerial(object):
         if size is None:
             size = 1
         if size > 0 and len(p.rx) < size and self.timeout != 0:
-            self.k.wait(lambda: len(p.rx) >= size or not self.is_open, self.timeout, 'read:' + self.name)
+            self.k.wait(lambda: len(p.rx) >= size or not self.is_open or p.reset, self.timeout, 'read:' + self.name)
             if not self.is_open:
                 raise OSError('port closed')
+        if p.reset and not p.rx:
+            import serial
+            self.k.log('read-error', self.name)
+            raise serial.SerialException('device reports readiness to read but returned no data')
         data = p.take(size)
         self.reads.append((size, len(data), t0, self.k.now))
-        self.k.log('read', self.name, size, data)
+        _io(self.k, 'recv', self.name, data)
         return data
 
     def write(self, data):
@@ -354,6 +381,7 @@ class SimSerial(object):
             err, self.write_error = self.write_error, None
             raise err
         data = bytes(data)
+        _io(self.k, 'send', self.name, data)
         self.ch.tx(self.side).write(data)
         return len(data)
 
